@@ -48,7 +48,10 @@ def lemmas():
     L('exactly-one-block-per-potential', [], z3.Length(LT.blocks(ps, dr, c, N, n)) == n)
     blk = LT.block(p, dr, c, N)
     L('block-header', [], z3.PrefixOf(cat(tok("%s-%s", K.pot_A(p), K.pot_B(p)), NL, tok("N %d R %.8f %.8f", N, dr, c), NL, NL), blk))
-    return [o for o in out if o is not None]
+    # 'any mix of built-in, custom, modified ... potentials': the derivative offered by plus/product/pow/trans compositions
+    # is the derivative of their energy (C07's combinator obligations, re-stated here because the force column depends on them)
+    import props.C07 as C07
+    return [o for o in out if o is not None] + C07.combinator_obligations('C01')
 
 MUTANTS = [
     (F_LT, '_writeSinglePotential', "float(n - 1)", "float(n)", 'preserve/0'),
